@@ -998,3 +998,20 @@ VARIANTS += [
     dict(prop="C06", name="seed-setup-builds-generators-crossed", expect="SIDES-seed|setup-keeps-sides",
          edits=[dict(file="ipa-core/src/protocol/prss/seed.rs", find="        let fl = GeneratorFactory::from(self.left);\n        let fr = GeneratorFactory::from(self.right);", replace="        let fl = GeneratorFactory::from(self.right);\n        let fr = GeneratorFactory::from(self.left);")]),
 ]
+
+VARIANTS += [
+    dict(prop="C14", name="receiver-waker-window-one-too-wide", expect="SLOT-ring|window-maps-injectively-to-slots",
+         edits=[dict(file=URF, find="        if i > self.next + self.wakers.len() {", replace="        if i > self.next + self.wakers.len() + 1 {")]),
+    dict(prop="C14", name="receiver-waker-window-test-rewritten", benign=True,
+         edits=[dict(file=URF, find="        if i > self.next + self.wakers.len() {", replace="        if i - self.next > self.wakers.len() {")]),
+]
+
+OPM = "ipa-core/src/protocol/ipa_prf/oprf_padding/mod.rs"
+VARIANTS += [
+    dict(prop="C12", name="padding-skips-the-cap-cardinality", expect="COUNT-padding|oprf:every-cardinality-1..=cap",
+         edits=[dict(file=OPM, find="                for cardinality in 1..=matchkey_cardinality_cap {", replace="                for cardinality in 1..matchkey_cardinality_cap {")]),
+    dict(prop="C12", name="padding-total-counts-groups-not-rows", expect="COUNT-padding|oprf:total=rows",
+         edits=[dict(file=OPM, find="                    total_number_of_fake_rows += sample * cardinality;", replace="                    total_number_of_fake_rows += sample + cardinality - cardinality;")]),
+    dict(prop="C12", name="aggregation-dummy-key-share-sides-swapped", expect="COUNT-padding|aggregation:key-share-zero-towards-excluded",
+         edits=[dict(file=OPM, find="                            Direction::Left => AdditiveShare::new(\n                                BK::ZERO,\n                                BK::truncate_from(u128::from(breakdownkey)),\n                            ),\n                            Direction::Right => AdditiveShare::new(\n                                BK::truncate_from(u128::from(breakdownkey)),\n                                BK::ZERO,\n                            ),", replace="                            Direction::Right => AdditiveShare::new(\n                                BK::ZERO,\n                                BK::truncate_from(u128::from(breakdownkey)),\n                            ),\n                            Direction::Left => AdditiveShare::new(\n                                BK::truncate_from(u128::from(breakdownkey)),\n                                BK::ZERO,\n                            ),")]),
+]
